@@ -5,6 +5,7 @@ import (
 	"go/constant"
 	"go/token"
 	"go/types"
+	"sort"
 	"strings"
 
 	"golang.org/x/tools/go/ssa"
@@ -280,3 +281,131 @@ func checkInputWrittenOnlyInPlace(c *Ctx) {
 		r.Bad("C03.R6", "pkg/api", "anchor", "", "UNRESOLVED-ANCHOR: no write-open of an input path found (the increment writers in pkg/api/annotation.go)")
 	}
 }
+
+// ---------------- C03.R7 (round 4 seed C03-G and a side observation): no success without output ----------------
+
+// checkStreamOpsWriteOnSuccess: the *File wrappers of pkg/api stage an output file, run the stream operation
+// func(rs io.ReadSeeker, w io.Writer, …) error on it and COMMIT the staged file when it returns nil. A stream
+// operation that returns nil without having written the document to w therefore publishes an empty file (and an
+// in-place call truncates the input). Rule: in every exported function of pkg/api with an io.ReadSeeker and an
+// io.Writer parameter and an error result, every return with a nil error is reached only through an instruction
+// that hands w on (a call that takes w, or a closure that captures it).
+func checkStreamOpsWriteOnSuccess(c *Ctx) {
+	p, r := c.P, c.R
+	n := 0
+	var fns []*ssa.Function
+	for _, fn := range p.Funcs {
+		if isSubject(fn) && fn.Pkg != nil && fn.Pkg.Pkg.Path() == modPath+"/pkg/api" && fn.Object() != nil && fn.Object().Exported() && fn.Signature.Recv() == nil {
+			fns = append(fns, fn)
+		}
+	}
+	sort.Slice(fns, func(i, j int) bool { return FuncID(fns[i]) < FuncID(fns[j]) })
+	for _, fn := range fns {
+		var rs, w *ssa.Parameter
+		for _, q := range fn.Params {
+			switch q.Type().String() {
+			case "io.ReadSeeker":
+				rs = q
+			case "io.Writer":
+				w = q
+			}
+		}
+		res := fn.Signature.Results()
+		if rs == nil || w == nil || res.Len() != 1 || !isErrorType(res.At(0).Type()) {
+			continue
+		}
+		usesW := func(b *ssa.BasicBlock) bool {
+			for _, in := range b.Instrs {
+				switch x := in.(type) {
+				case ssa.CallInstruction:
+					for _, a := range x.Common().Args {
+						for _, l := range valueLeaves(a) {
+							if l == ssa.Value(w) {
+								return true
+							}
+							if mi, ok := l.(*ssa.MakeInterface); ok && mi.X == ssa.Value(w) {
+								return true
+							}
+						}
+					}
+				case *ssa.MakeClosure:
+					for _, bnd := range x.Bindings {
+						if bnd == ssa.Value(w) {
+							return true
+						}
+						// the parameter spilled to a cell that the closure captures
+						if al, ok := bnd.(*ssa.Alloc); ok {
+							for _, rf := range *al.Referrers() {
+								if st, ok := rf.(*ssa.Store); ok && st.Val == ssa.Value(w) {
+									return true
+								}
+							}
+						}
+					}
+				}
+			}
+			return false
+		}
+		free := map[*ssa.BasicBlock]bool{fn.Blocks[0]: true}
+		work := []*ssa.BasicBlock{fn.Blocks[0]}
+		for len(work) > 0 {
+			b := work[len(work)-1]
+			work = work[:len(work)-1]
+			if usesW(b) {
+				continue
+			}
+			for _, s := range b.Succs {
+				if !free[s] {
+					free[s] = true
+					work = append(work, s)
+				}
+			}
+		}
+		// successful exits: with a deferred fault.Catch the nil is stored into the named result before the exit block
+		k := 0
+		okFn := true
+		var firstBad token.Pos
+		for _, b := range fn.Blocks {
+			if !free[b] || usesW(b) {
+				continue
+			}
+			for _, in := range b.Instrs {
+				switch x := in.(type) {
+				case *ssa.Store:
+					if al, ok := x.Addr.(*ssa.Alloc); ok && isErrorType(al.Type().(*types.Pointer).Elem()) && isNilConst(x.Val) {
+						k++
+						okFn = false
+						if firstBad == token.NoPos {
+							firstBad = x.Pos()
+						}
+					}
+				case *ssa.Return:
+					if kind, ok := returnErrKind(x); ok && kind == errNil {
+						if _, spilled := x.Results[0].(*ssa.UnOp); !spilled {
+							k++
+							okFn = false
+							if firstBad == token.NoPos {
+								firstBad = x.Pos()
+							}
+						}
+					}
+				}
+			}
+		}
+		n++
+		switch {
+		case okFn:
+			r.OK("C03.R7", FuncID(fn), "no success without output", p.Pos(fn.Pos()), "every nil-error exit is reached through an instruction that hands the writer on", true)
+		case c03NoOutputOnSuccess[FuncID(fn)] != "":
+			r.OK("C03.R7", FuncID(fn), "no success without output", p.Pos(firstBad), "table: "+c03NoOutputOnSuccess[FuncID(fn)], false)
+		default:
+			r.Bad("C03.R7", FuncID(fn), "no success without output", p.Pos(firstBad), fmt.Sprintf("the operation can return nil without having handed its writer to anything (%d such exits): the *File wrapper commits the staged output on nil, so the published file is empty — and an in-place call replaces the input with an empty file", k))
+		}
+	}
+	if n == 0 {
+		r.Bad("C03.R7", "pkg/api", "anchor", "", "UNRESOLVED-ANCHOR: no stream operations func(rs, w, …) error found")
+	}
+}
+
+// c03NoOutputOnSuccess: stream operations whose nil return without output is not published by a *File wrapper.
+var c03NoOutputOnSuccess = map[string]string{}
